@@ -5802,7 +5802,7 @@ def _fill_rests_within_measure(measure: Measure, part: Part) -> None:
                 if isinstance(sym_dur, tuple):
                     st = start_time
                     for i, sd in enumerate(sym_dur):
-                        et = start_time + symbolic_to_numeric_duration(
+                        et = st + symbolic_to_numeric_duration(
                             sd, divs_at(start_time)
                         )
                         rest = Rest(
